@@ -308,7 +308,11 @@ func (n *ReconcileNode) Reconcile(ctx context.Context, request reconcile.Request
 
 		err = n.client.Status().Update(ctx, node)
 
-		if err != nil && nodeStatus.StatusChanged.CompareAndSwap(true, false) {
+		if err != nil {
+			// what this pass learned (from the cloud calls it made or from a full sync) is lost
+			// with the failed write: the next pass has to read the cloud again, whatever the
+			// source of the change was
+			nodeStatus.StatusChanged.Store(false)
 			nodeStatus.NeedSyncOpenAPI.Store(true)
 		}
 
